@@ -20,8 +20,14 @@ MANIFEST = dict(
           "SI and Gaussian spellings of one quantity, commensurable although their dimension expressions differ - is walked through "
           "every helper (both systems, SI prefixes, tolerance in either system, symbolic-scale rows of an EM dimension), and the "
           "decorators are walked with a different declared dimension per checked position over all tuples of values that alias "
-          "each other (same Unit object, same quantity object, prefixed, other dimension, bare). Bounded: argument kinds, tolerance "
-          "spellings, dimension choices, shapes <= (2,), histories of <= 3 calls."),
+          "each other (same Unit object, same quantity object, prefixed, other dimension, bare). Every dimension is also checked against "
+          "ALL its neighbours D*b**p (b each of unyt's 8 base dimensions, p in {1,-1,2}; one symbol and compound spelling, both "
+          "directions) and table units carrying a bookkeeping dimension (rad, sr, rpm, dB, K, cd, lm ...) against their dimension with "
+          "one base dropped / inverted / doubled. Objects the caller keeps: the same operand (and tolerance) objects go through 2-3 "
+          "calls, both arguments wrap one buffer under two units, one object is both arguments, operands are views of larger arrays - "
+          "every call carries the oracle on the values written down before the first call and must leave values and units of every "
+          "object as they were; payload axis z3 terms / real float64, float32, int64 arrays (then rtol and atol are the symbols). "
+          "Bounded: argument kinds, tolerance spellings, dimension choices, shapes <= (2,), histories of <= 3 calls."),
     design="DESIGN.md section 4 C19",
     technique="symbolic execution of the real Python code over z3 real terms; SMT (QF_NRA) obligations per path; counterexample replay")
 EXPLANATION = (
@@ -58,7 +64,23 @@ EXPLANATION = (
     "accepts stacked with returns in both orders) its own declared dimension out of {D0, D1, dimensionless} and walk ALL tuples of "
     "value kinds that alias each other - two values carrying one Unit object, the very same quantity object at two positions, the "
     "unit SI-prefixed, a unit of the other dimension, bare numbers, 'dimensionless' - through one decorated function per "
-    "declaration; the call must go through untouched iff every position holds its declared dimension (harness table of kinds)."
+    "declaration; the call must go through untouched iff every position holds its declared dimension (harness table of kinds). "
+    "Neighbour dimensions: the wrong dimensions of the decorator cases come from elsewhere in the catalogue, so C19/decorators-neighbour/* "
+    "checks every dimension D against ALL dimensions that differ from it in ONE base dimension - N = D*b**p for b in {mass, length, time, "
+    "temperature, angle, current, luminous intensity, logarithmic}, p in {1,-1,2}: a value of N at a slot declared D and a value of D at "
+    "a slot declared N are refused, a value of N at a slot declared N passes (N spelled as one symbol of symbolic scale in a fresh registry "
+    "and as the compound of the unit of D with the base row) through accepts positional/keyword, returns single/tuple, returns over "
+    "accepts and _has_dimensions; C19/decorators-table/* holds table units whose dimension carries a base dimension easily taken for "
+    "nothing (rad, degree, arcsec, sr, rpm, rad/s, dB, Np, K, cd, lm, lx ...) against their own dimension (pass) and that dimension with "
+    "each base dropped, inverted, doubled (refused). "
+    "Objects the caller keeps (C19/reuse/*): all cases above build fresh independent operands per call, so a helper that writes to its "
+    "arguments answers them correctly. Here the same two operand objects and ONE tolerance object go through two and three calls (also "
+    "swapped), actual and desired wrap ONE buffer under two units, one object is given as both arguments, operands are views into larger "
+    "arrays the caller holds; every call carries the single-call oracle on the values the harness wrote down before the first call, and "
+    "after every call each object, its base buffer and the atol quantity must still hold their values (z3 equality for symbolic payloads) and "
+    "unit. Payload axis: z3 terms in object arrays with symbolic scales, and REAL float64 / float32 / int64 arrays of constants with constant "
+    "scales (exactly representable) where rtol and atol remain symbols - so code that branches on the payload's dtype runs the branch it "
+    "runs in production while every verdict is still decided by z3 for all tolerances."
 )
 BOUNDS = {
     "quick": "functions {allclose_units, assert_allclose_units, numpy.allclose, numpy.isclose, numpy.array_equal, "
@@ -94,7 +116,12 @@ BOUNDS = {
              "keyword (reversed order) / positional+keyword / with an unchecked argument between / 3 positional, returns over accepts, "
              "accepts over returns positional / keyword}, other dimension rotating over 2-3 partners (incl. the EM counterpart), "
              "declarations {(D0,D1),(D1,D0),(D0,D0),(D0,N),(N,D0)} x ALL 64 pairs of the 8 value kinds, {(D0,D0,D1),(D0,D1,D0),(D1,D0,D0),"
-             "(D0,D1,N)} x ALL 64 triples of 4 kinds",
+             "(D0,D1,N)} x ALL 64 triples of 4 kinds; neighbour dimensions (C19/decorators-neighbour): the 12 dimensions of the quick catalogue x 8 "
+             "base dimensions x powers {1,-1,2} x 2 spellings x 5 checks x 6 usages, 23 table units (C19/decorators-table) x every base of "
+             "their dimension x {dropped, inverted, doubled} x 6 usages; kept objects (C19/reuse): 7 sharing patterns {reuse, reuse-swapped, "
+             "reuse-3, shared-buffer, shared-buffer-swapped, same-object, views-of-a-base} x payload {z3 terms, float64} x atol {default, own "
+             "unit, bare} for allclose_units, default atol for np.allclose, float32/int64 payloads and the other two closeness functions "
+             "rotating (a third of the cells each), the array_equal family on symbolic payloads x the 6 patterns of <= 2 calls",
     "thorough": "same axes; all 10 same-dimension operand pairs x all atol spellings for both *_units helpers, bare atol on every "
                 "pair, numpy handlers on all pairs, unit-carrying atol also with (2,) operands, re-expression with (2,) operands "
                 "and via a third spelling; decorators: all 9 usages over all 53 dimensions of unyt.dimensions and the default unit "
@@ -107,7 +134,9 @@ BOUNDS = {
                 "quantity, mechanical unit) for all four functions, bare atol / numpy's bare default on all 10 ordered pairs for "
                 "allclose_units and np.allclose and on 4 for the other two (known-finding cells), all prefixed pairs, rows, re-expressions (also with a "
                 "unit-carrying atol and (2,) operands) and array_equal pairs; decorators-multi: all 10 usages for each of the 53 "
-                "dimensions, returns-2/accepts-positional-2 against every partner dimension",
+                "dimensions, returns-2/accepts-positional-2 against every partner dimension; neighbour dimensions for all 53 dimensions; kept objects: "
+                "all 7 patterns x 4 payloads x all four closeness functions, unit-carrying and bare atol for histories of <= 2 calls, the "
+                "array_equal family on all 7 patterns",
 }
 OUTSIDE = ("electromagnetic family: the SI/Gaussian factors are constants of unyt's table, so the unit scales of C19/em-* are "
            "concrete except for the harness rows, which unyt reaches only as the conversion TARGET (actual's unit): a user-defined "
@@ -119,8 +148,11 @@ OUTSIDE = ("electromagnetic family: the SI/Gaussian factors are constants of uny
            "compound units other than square/product, twins of the tolerance's unit in histories (single calls only), memos "
            "keyed by object identity are only met through the re-assigned-units subject (identity reuse after garbage "
            "collection is not provoked); IEEE rounding/overflow/nan/inf and equal_nan (A1); units with an offset (degC, degF: a relative tolerance on an "
-           "offset scale is not unit-invariant by construction); negative rtol/atol; array-valued atol/rtol; integer/complex "
-           "payloads; shapes beyond (2,); unit scales that differ by less than 1e-8 relative without being identical (unyt "
+           "offset scale is not unit-invariant by construction); negative rtol/atol; array-valued atol/rtol; complex payloads, integer and "
+           "float32 payloads other than the constant arrays of C19/reuse (there the values and unit scales are constants, only the "
+           "tolerances are symbols); kept objects: sharing between an operand and the TOLERANCE's buffer, non-contiguous / read-only / "
+           "0-d views, unyt_quantity operands, more than three calls; neighbour dimensions differing in two or more base dimensions at once "
+           "(met only through the rotating catalogue partners); shapes beyond (2,); unit scales that differ by less than 1e-8 relative without being identical (unyt "
            "deliberately treats units within 1e-9 as the same unit); rtol given as a quantity to numpy.isclose/allclose; default "
            "values of a decorated function's parameters are never seen by accepts (not claimed either way); a function returning "
            "fewer values than returns() lists; for numpy.isclose/allclose an operand without units or in the unit 'dimensionless' "
@@ -228,8 +260,10 @@ def _dimtag(reg, name, default):
 
 
 def _row(ctx, reg, name, tag, prefixable=False):
-    """harness unit `name` with a symbolic positive scale (created once per path and registry)"""
-    s = ctx.real(name + "_s" + getattr(reg, "_c19_tag", ""), pos=True)
+    """harness unit `name` with a symbolic positive scale (created once per path and registry); a registry carrying
+    `_c19_fixed` (name -> number) gets that constant scale instead (payloads of a real float/int dtype, see C19/reuse)"""
+    fixed = getattr(reg, "_c19_fixed", None)
+    s = fixed[name] if fixed is not None else ctx.real(name + "_s" + getattr(reg, "_c19_tag", ""), pos=True)
     if name not in reg.lut:
         ctx.add_row(reg, name, _dims(ctx, _dimtag(reg, name, tag)), s, 0.0, prefixable=prefixable)
     return s
@@ -576,6 +610,11 @@ def equal_step(ctx, fn_name, rega, fa, ua, regb, fb, ub, tag="", lp=""):
     """ONE call of a member of the array_equal family and its obligation"""
     A = operand(ctx, rega, "a" + tag, fa, ua)
     B = operand(ctx, regb, "b" + tag, fb, ub)
+    equal_oblig(ctx, fn_name, A, B, lp)
+
+
+def equal_oblig(ctx, fn_name, A, B, lp=""):
+    """the call of a member of the array_equal family on two prepared operands (Side) and its obligation"""
     separate(ctx, A.scale, B.scale)
     out = run_equal(ctx, fn_name, A.obj, B.obj)
     if out[0] != "verdict":
@@ -1469,6 +1508,338 @@ def decorator_history_cases(tier, mods):
     return out
 
 
+# ----------------------------------------------------------------------------------------------- neighbour dimensions
+#
+# The decorator cases above take the WRONG dimensions of a slot from elsewhere in the catalogue (two rotating partners and
+# the EM counterpart), so a predicate that is right except that it discounts (or forgets to compare) ONE base dimension -
+# plane angle read as dimensionless, a logarithmic or temperature factor ignored, an exponent compared by sign only - is
+# met only if the catalogue happens to hold the two dimensions next to each other. Here every dimension D is checked against
+# ALL its neighbours N = D * b**p for every base dimension b of unyt (mass, length, time, temperature, angle, current,
+# luminous intensity, logarithmic) and p in {+1, -1, +2}: a value of dimension N reaching a slot declared D is refused, a
+# value of dimension D reaching a slot declared N is refused, a value of dimension N reaching a slot declared N passes -
+# through every usage of the predicate. N is spelled as a single unit (one symbol, registered afresh per neighbour, symbolic
+# scale) and as the compound 'xq*<base row>**p'. C19/decorators-table/* does the same for table units of the default registry
+# that carry a 'bookkeeping' dimension (rad, degree, sr, rpm, dB, Np, K, cd, lm ...).
+
+NB_USAGES = ("accepts-positional", "accepts-keyword", "returns-single", "returns-tuple", "returns-over-accepts", "has-dimensions")
+NB_POWERS = (1, -1, 2)
+
+
+def decorator_verdict(Dm, usage, declared, q, good=None):
+    """one check of the value q against the declared dimension through `usage` -> (passed untouched?, refused as documented?, info)"""
+    calls = []
+    if usage == "has-dimensions":
+        got = Dm._has_dimensions(q, declared)
+        return got is True, got is False, dict(got=str(got))
+    if usage in ("accepts-positional", "accepts-keyword"):
+        def body(x=None, y=None):
+            ret = ("result", x, y)
+            calls.append(ret)
+            return ret
+        if usage == "accepts-positional":
+            r = call(Dm.accepts(x=declared)(body), q)
+            want = (q, None)
+        else:
+            r = call(Dm.accepts(y=declared)(body), 1.0, y=q)
+            want = (1.0, q)
+        passed = r[0] == "ok" and len(calls) == 1 and r[1] is calls[0] and all(p is w for p, w in zip(r[1][1:], want))
+        refused = r[0] == "raise" and type(r[1]) is TypeError and not calls
+    elif usage == "returns-single":
+        def g():
+            calls.append(q)
+            return q
+        r = call(Dm.returns(declared)(g))
+        passed = r[0] == "ok" and r[1] is q and len(calls) == 1
+        refused = r[0] == "raise" and type(r[1]) is TypeError and len(calls) == 1
+    elif usage == "returns-tuple":
+        t = (good[0], q)
+
+        def g2():
+            calls.append(t)
+            return t
+        r = call(Dm.returns(good[1], declared)(g2))
+        passed = r[0] == "ok" and r[1] is t and len(calls) == 1
+        refused = r[0] == "raise" and type(r[1]) is TypeError and len(calls) == 1
+    elif usage == "returns-over-accepts":
+        def g3(x):
+            calls.append(x)
+            return x
+        r = call(Dm.returns(declared)(Dm.accepts(x=declared)(g3)), q)
+        passed = r[0] == "ok" and r[1] is q and len(calls) == 1
+        refused = r[0] == "raise" and type(r[1]) is TypeError and not calls
+    else:
+        raise KeyError(usage)
+    return passed, refused, dict(got=str(r)[:160], calls=len(calls))
+
+
+def _dec_require(ctx, Dm, usage, declared, q, expected, label, good, value=None, scale=None):
+    from .common import close, payload
+    passed, refused, info = decorator_verdict(Dm, usage, declared, q, good)
+    ok = passed if expected else refused
+    lab = f"{usage}: {label} " + ("passes untouched" if expected else "is refused")
+    if ok and expected and value is not None and hasattr(q, "units"):
+        # what came through still has the SI magnitude that went in (decided by the solver)
+        ctx.require(lab, And(ok, close(payload(q)[0] * q.units.base_value, value * scale)), to_solver=True, **info)
+    else:
+        ctx.require(lab, ok, **info)
+
+
+def make_neighbour_case(dname, D):
+    def h(ctx):
+        unyt = ctx.mods["unyt"]
+        Dm = unyt.dimensions
+        rows = dict(BASE_ROWS)
+        reg = ctx.registry([])
+        sq = ctx.real("xq_s", pos=True)
+        ctx.add_row(reg, "xq", D, sq, 0.0, prefixable=True)
+        v_own = ctx.real("v_own")
+        own = ctx.quantity(v_own, "xq", reg)
+        good = (own, D)
+        for usage in NB_USAGES:
+            _dec_require(ctx, Dm, usage, D, own, True, "a value of the declared dimension", good, v_own, sq)
+        k = 0
+        for bname, brow in BASE_ROWS:
+            b = getattr(Dm, bname)
+            sb = ctx.real(brow + "_s", pos=True)
+            if brow not in reg.lut:
+                ctx.add_row(reg, brow, b, sb, 0.0)
+            for p in NB_POWERS:
+                k += 1
+                N = D * b**p
+                if N == D:
+                    continue
+                # the neighbour as ONE symbol (a fresh registry per neighbour: the same spelling 'xw' over and over) ...
+                regn = ctx.registry([])
+                sn = ctx.real(f"xw_s{k}", pos=True)
+                ctx.add_row(regn, "xw", N, sn, 0.0)
+                vn = ctx.real(f"v_n{k}")
+                single = ctx.quantity(vn, "xw", regn)
+                # ... and as a compound of the unit of D and the base row
+                vc = ctx.real(f"v_c{k}")
+                comp = ctx.quantity(vc, f"xq*{brow}**({p})", reg)
+                if not (single.units.dimensions == N and comp.units.dimensions == N):
+                    ctx.require("premise: the neighbour units have the neighbour dimension", False, dims=str(comp.units.dimensions))
+                    return
+                what = f"{bname}**{p}"
+                for usage in NB_USAGES:
+                    _dec_require(ctx, Dm, usage, D, single, False, f"declared D, a value of dimension D*{what} (one symbol)", good)
+                    _dec_require(ctx, Dm, usage, D, comp, False, f"declared D, a value of dimension D*{what} (compound)", good)
+                    _dec_require(ctx, Dm, usage, N, own, False, f"declared D*{what}, a value of dimension D", good)
+                    _dec_require(ctx, Dm, usage, N, single, True, f"declared D*{what}, a value of dimension D*{what} (one symbol)", good, vn, sn)
+                    _dec_require(ctx, Dm, usage, N, comp, True, f"declared D*{what}, a value of dimension D*{what} (compound)", good, vc, sq * sb**p)
+    return Case(f"C19/decorators-neighbour/{dname}", h,
+                bounds="symbolic: values and unit scales; enumerated: the dimension, the base dimension and power by which the neighbour "
+                       "differs, spelling of the neighbour (one symbol / compound), usage")
+
+
+# table units of the default registry whose dimension carries a base dimension that is easily taken for 'nothing'
+TABLE_SUBJECTS = ("rad", "degree", "arcmin", "arcsec", "sr", "rpm", "rad/s", "degree/hr", "m**2*rad", "rad/m", "dB", "Np", "Np/m", "K", "K/s",
+                  "cd", "lm", "lx", "cd/m**2", "A", "A*s", "kg*rad", "Hz*sr")
+
+
+def make_table_subject_case(uname):
+    def h(ctx):
+        import sympy
+        unyt = ctx.mods["unyt"]
+        Dm = unyt.dimensions
+        v = ctx.real("v")
+        q = ctx.quantity(v, uname)
+        Du = q.units.dimensions
+        scale = q.units.base_value
+        w = ctx.quantity(ctx.real("w"), "m")
+        good = (w, Dm.length)
+        for usage in NB_USAGES:
+            _dec_require(ctx, Dm, usage, Du, q, True, f"a value in {uname} against its own dimension", good, v, scale)
+        done = 0
+        for b, e in sorted(sympy.sympify(Du).as_powers_dict().items(), key=lambda t: str(t[0])):
+            if b == 1:
+                continue
+            for wrong, text in ((Du / b**e, f"with {b} dropped"), (Du / b**(2 * e), f"with {b} inverted"), (Du * b**e, f"with {b} doubled")):
+                if wrong == Du:
+                    continue
+                done += 1
+                for usage in NB_USAGES:
+                    _dec_require(ctx, Dm, usage, wrong, q, False, f"a value in {uname} against its dimension {text}", good)
+        if not done:
+            ctx.require("premise: the table unit has a base dimension", False)
+    return Case(f"C19/decorators-table/{uname}", h, bounds="symbolic: the value; enumerated: table unit, base dimension dropped/inverted/doubled, usage")
+
+
+def neighbour_cases(tier, mods):
+    Dm = mods["unyt"].dimensions
+    cat = [(n, d) for n, d in dims_catalogue(mods, tier) if _decomposable(Dm, d)]
+    out = [make_neighbour_case(n, d) for n, d in cat]
+    out += [make_table_subject_case(u) for u in TABLE_SUBJECTS]
+    return out
+
+
+# ----------------------------------------------------------------------------------------------- the same objects again
+#
+# Every case above builds fresh, independent operands for every call, so a helper that WRITES to what it was given (converts
+# `desired` in place, sorts/relabels an argument, leaves a rescaled buffer behind) answers every one of them correctly. Here the
+# operands are objects the caller keeps: the same two objects go through two and three calls (also swapped), `actual` and
+# `desired` wrap ONE buffer under two units, the same object is given as both arguments, an operand is a view into a larger
+# array. Every call carries the single-call oracle computed from the values the harness wrote down BEFORE the first call, and
+# after every call each object must still hold its values and its unit. Payload axis: z3 terms in an object array, and real
+# float64 / float32 / int64 arrays (constants; the unit scales are then constants too, rtol and atol stay symbols, so the
+# verdict of every call is still decided by z3 for all tolerances) - code that branches on the payload's dtype takes the
+# branch it takes in production.
+
+RU_PAYLOADS = ("sym", "f8", "f4", "i8")
+RU_FIXED = {"xa": 2.0, "xd": 1.0 / 64, "xc": 0.25, "xe": 8.0, "xn": 0.5, "xt": 3.0, "xs": 1.0}
+RU_NUMBERS = {"X": (3.0, 5.0), "Y": (385.0, 640.0), "pad": (7.0, 11.0)}      # 385/128 and all products exact in float32
+RU_SCRIPTS = {
+    "reuse": ("separate", [("X", "Y"), ("X", "Y")]),
+    "reuse-swapped": ("separate", [("X", "Y"), ("Y", "X")]),
+    "reuse-3": ("separate", [("X", "Y"), ("Y", "X"), ("X", "Y")]),
+    "shared-buffer": ("shared", [("X", "Y")]),
+    "shared-buffer-swapped": ("shared", [("Y", "X"), ("X", "Y")]),
+    "same-object": ("separate", [("X", "X"), ("X", "Y")]),
+    "views-of-a-base": ("views", [("X", "Y"), ("X", "Y")]),
+}
+
+
+def _ru_objects(ctx, reg, payload, layout, ux="xa", uy="xd"):
+    """-> {name: Side}, [(label, live buffer, values written down now)]"""
+    unyt = ctx.mods["unyt"]
+    dt = {"f8": np.float64, "f4": np.float32, "i8": np.int64}.get(payload)
+
+    def buf(name, nums):
+        if payload == "sym":
+            return ctx.reals(name, (len(nums),))
+        return np.array(nums, dtype=dt)
+    keep = []
+    if layout == "shared":
+        raw = buf("r", RU_NUMBERS["X"])
+        bx = by = raw
+        keep.append(("the shared buffer", raw, list(elements(raw))))
+    elif layout == "views":
+        basex = buf("bx", RU_NUMBERS["X"] + RU_NUMBERS["pad"][:1])
+        basey = buf("by", RU_NUMBERS["pad"][1:] + RU_NUMBERS["Y"])
+        bx, by = basex[0:2], basey[1:3]
+        keep += [("the base array of actual", basex, list(elements(basex))), ("the base array of desired", basey, list(elements(basey)))]
+    else:
+        bx, by = buf("x", RU_NUMBERS["X"]), buf("y", RU_NUMBERS["Y"])
+    sides = {}
+    for nm, b, u in (("X", bx, ux), ("Y", by, uy)):
+        ustr, s, dim = unit_of(ctx, reg, u)
+        obj = unyt.unyt_array(b, ustr, registry=reg)
+        sides[nm] = Side(obj, list(elements(b)), s, dim, False, (2,), ustr)
+        keep.append((f"the object {nm}", obj, list(elements(b))))
+    if not (np.shares_memory(sides["X"].obj, bx) and np.shares_memory(sides["Y"].obj, by)):
+        ctx.require("premise: the quantities wrap the caller's buffers", False)
+        return None, None
+    return sides, keep
+
+
+def _ru_unchanged(ctx, lp, sides, keep, extra=()):
+    """after a call: every object the caller holds still has its values and its unit"""
+    ok = True
+    for label, live, before in keep:
+        now = elements(np.asarray(live))
+        ok = And(ok, len(now) == len(before), *[exact_eq(n, b) for n, b in zip(now, before)])
+    for nm, S in sides.items():
+        ok = And(ok, str(S.obj.units) == S.ustr, S.obj.shape == S.shape)
+    for label, q, before, ustr in extra:
+        ok = And(ok, exact_eq(elements(np.asarray(q))[0], before), str(q.units) == ustr)
+    ctx.require(lp + "the arguments are left as they were (values, units)", ok)
+
+
+def make_reuse_case(fn_name, payload, script, atol_how):
+    layout, steps = RU_SCRIPTS[script]
+    npf = fn_name in NP_FAMILY
+
+    def h(ctx):
+        reg = ctx.registry([])
+        if payload != "sym":
+            reg._c19_fixed = RU_FIXED
+        sides, keep = _ru_objects(ctx, reg, payload, layout)
+        if sides is None:
+            return
+        separate(ctx, sides["X"].scale, sides["Y"].scale)
+        # ONE tolerance object for all calls of the history (the caller keeps it too)
+        kwa, atol, atol_scale, atol_dim = make_atol(ctx, reg, atol_how)
+        if atol is None:
+            atol = 1e-8 if npf else 0.0
+        kwr, rtol, _, _ = make_rtol(ctx, reg, "bare", None)
+        kw = dict(kwa, **kwr)
+        extra = []
+        if atol_scale is not None:
+            separate(ctx, atol_scale, sides["X"].scale)
+            separate(ctx, atol_scale, sides["Y"].scale)
+            extra.append(("atol", kw["atol"], atol, str(kw["atol"].units)))
+        for i, (na, nd) in enumerate(steps):
+            lp = f"call {i + 1} of {len(steps)} ({na},{nd}): " if len(steps) > 1 else ""
+            A, Dd = sides[na], sides[nd]
+            out = run_close(ctx, fn_name, A.obj, Dd.obj, kw)
+            if out[0] != "verdict":
+                ctx.require(lp + f"commensurable operands and tolerances give a verdict (raised {type(out[1]).__name__})", False, got=repr(out[1])[:200])
+                return
+            rel_d = ratio(Dd.scale, A.scale)
+            if atol_dim == "bare":
+                mb = margins(A, Dd, rel_d, atol * rel_d, rtol)
+                lab = "verdict == SI oracle on the values given, bare atol read in desired's unit"
+            else:
+                mb = margins(A, Dd, rel_d, atol * ratio(atol_scale, A.scale), rtol)
+                lab = "verdict == SI oracle on the values given, atol in its own unit"
+            check_verdicts(ctx, lp + lab, fn_name, out[1], mb)
+            _ru_unchanged(ctx, lp, sides, keep, extra)
+    return Case(f"C19/reuse/{fn_name}/{script}/{payload}/atol={atol_how}", h, oblig_timeout_ms=60000, budget_s=600,
+                weight=(4 if npf else 2) * len(steps) ** 2,
+                bounds="symbolic: rtol, atol; values and unit scales (z3 terms for payload 'sym', constants for the real float/int dtypes); "
+                       "enumerated: payload dtype, which objects are shared between arguments and calls, the call history")
+
+
+def make_reuse_equal_case(fn_name, script, form):
+    layout, steps = RU_SCRIPTS[script]
+
+    def h(ctx):
+        reg = ctx.registry([])
+        sides, keep = _ru_objects(ctx, reg, "sym", layout)
+        if sides is None:
+            return
+        if form == "q":
+            # scalar operands: quantities taken out of the arrays (element views where numpy gives them)
+            for nm, S in sides.items():
+                S.obj, S.vals, S.shape = S.obj[0:1].reshape(()), S.vals[:1], ()
+        for i, (na, nb) in enumerate(steps):
+            lp = f"call {i + 1} of {len(steps)} ({na},{nb}): " if len(steps) > 1 else ""
+            equal_oblig(ctx, fn_name, sides[na], sides[nb], lp)
+            _ru_unchanged(ctx, lp, sides, keep)
+    return Case(f"C19/reuse/{fn_name}/{script}/sym/{form}", h, oblig_timeout_ms=60000, budget_s=600, weight=2 * len(steps) ** 2,
+                bounds="symbolic: values and unit scales; enumerated: which objects are shared between arguments and calls, the call history")
+
+
+def reuse_cases(tier):
+    thorough = tier == "thorough"
+    out = []
+    for fn in ("allclose_units", "assert_allclose_units") + NP_FAMILY:
+        npf = fn in NP_FAMILY
+        first = fn in ("allclose_units", "np.allclose")
+        free = "zero" if npf else "default"
+        for k, script in enumerate(RU_SCRIPTS):
+            n = len(RU_SCRIPTS[script][1])
+            for j, payload in enumerate(RU_PAYLOADS):
+                if not thorough:
+                    # quick: every script with the symbolic and the float64 payload for the first function of each pair, the
+                    # other dtypes and functions rotate
+                    if not (first and payload in ("sym", "f8")) and (k + j) % 3 != (0 if first else 1):
+                        continue
+                atols = [free]
+                if (thorough or (first and payload in ("sym", "f8"))) and n <= 2 and not (npf and payload == "sym" and n > 1):
+                    atols += ["xc"] + ([] if npf else ["bare"])
+                for atol in atols:
+                    out.append(make_reuse_case(fn, payload, script, atol))
+    for fn in ("np.array_equal", "np.array_equiv", "assert_array_equal_units"):
+        for script in RU_SCRIPTS:
+            n = len(RU_SCRIPTS[script][1])
+            if n > 2 and not thorough:
+                continue
+            form = "q" if fn == "assert_array_equal_units" and n > 1 else "a"
+            out.append(make_reuse_equal_case(fn, script, form))
+    return out
+
+
 def _decomposable(Dm, d):
     try:
         _powers(Dm, d)
@@ -1579,4 +1950,6 @@ def cases(tier, mods):
     out += decorator_cases(tier, mods)
     out += multi_value_cases(tier, mods)
     out += decorator_history_cases(tier, mods)
+    out += neighbour_cases(tier, mods)
+    out += reuse_cases(tier)
     return out
